@@ -120,7 +120,15 @@ def name_match_sites(repo):
                         it = node.iter
                         if any((call_name(c) or '').split('.')[-1] in helper_norm for c in ast.walk(it) if isinstance(c, ast.Call)):
                             norm = True
-            sites.append({'func': '%s:%s' % (m, q), 'node': n, 'text': unparse(n), 'normalises': norm})
+            # the table category the site ranges over, when it is a literal (for key in db['enc']: ...): wildcard rows of other categories are not involved
+            cat = None
+            if isinstance(operand, ast.Name):
+                for lp in walk_no_nested(f):
+                    if isinstance(lp, ast.For) and isinstance(lp.target, ast.Name) and lp.target.id == operand.id and isinstance(lp.iter, ast.Subscript) and isinstance(lp.iter.slice, ast.Constant):
+                        cat = lp.iter.slice.value
+            if isinstance(n, ast.Compare) and isinstance(n.comparators[0], ast.Subscript) and isinstance(n.comparators[0].slice, ast.Constant) and isinstance(n.comparators[0].slice.value, str):
+                cat = n.comparators[0].slice.value
+            sites.append({'func': '%s:%s' % (m, q), 'node': n, 'text': unparse(n), 'normalises': norm, 'category': cat})
     return sites
 
 
@@ -196,6 +204,8 @@ def run(repo, rep, tier):
                       'get_ssh_timeframe matches raw names against wildcard rows that carry version data', stmt=s['text'])
             continue
         for cat in sorted(wc):
+            if s.get('category') is not None and s['category'] != cat:
+                continue        # the site only ever sees names of another, wildcard-free category
             rep.check('name-match', '%s: `%s` agrees with the text renderer on wildcard category %s' % (s['func'], s['text'][:50], cat), s['normalises'], s['node'],
                       '`%s` matches the raw advertised name against the wildcard keys of category %r (e.g. %s): this view rates every gss-* key exchange as unknown while the text report rates it from the wildcard row'
                       % (s['text'], cat, sorted(wc[cat])[0]), stmt=s['text'])
